@@ -86,7 +86,8 @@ P = {
  "C07": dict(
   text="Theorems over Norm.v (coverage._normalize_coverage, profile.get_sam_profile_data, sam._load_cn_region) in exact rationals for every region "
        "layout and depth table: invariance when every read is duplicated k times, linear scaling when only gene reads are multiplied, self-profile "
-       "gives exactly 2 in every covered region, empty neutral region rejected; the structure stage consumes only the normalised vector. " + TIE +
+       "gives exactly 2 in every covered region, empty neutral region rejected; the structure stage consumes only the normalised vector, which "
+       "in lowest terms is the same data at any depth, so the model's copy-number stage returns the same result (C07_cn_stage_depth_independent). " + TIE +
        "Simulated BAMs over generated genes (either strand, with/without pseudogene, custom neutral regions) go through the real Sample/Profile "
        "code (profile from BAM and from a written profile file) and are compared with the model; k in 2..5.",
   note=TRUST + "pysam, read simulator, float arithmetic compared to exact rationals at 1e-9 relative. _filter_configs uses the absolute min_coverage parameter: depth-independence of the reported structure is stated for the normalised vector only.",
